@@ -499,7 +499,18 @@ def hunt2_rules(chk, repo):
             chk.violation("C19.lookahead", rc, "read_chunk()", "drain self._unread (push the peeked line back) before reading from self._content",
                           "readline() keeps the next line in self._unread, and no other read path looks there: readline() followed by read() silently drops a line of the part, reading only the first line of each part and calling next() raises `Invalid boundary`, release() swallows the following part")
         cnt = [a for a in ast.walk(rl.node) if isinstance(a, ast.AugAssign) and norm.raw(a.target) == "self._read_bytes"]
-        if cnt:
+        # ... and counts what it hands out: the line is not changed any more between the count and the return (the CRLF that belongs to the
+        # next delimiter is stripped first)
+        grl = cfg_of(rl.node)
+        cn = [n_ for n_ in grl.nodes if n_.in_finally_copy is None and n_.kind == "stmt" and any(n_.ast is a for a in cnt)]
+        def reassigns(n_):
+            return n_.kind == "stmt" and isinstance(n_.ast, ast.Assign) and any(isinstance(t_, ast.Name) and t_.id == "line" for t_ in n_.ast.targets)
+        late = grl.find_path(cn, reassigns, lambda n_: False, EXPLICIT) if cn else None
+        if cnt and late is not None:
+            chk.violation("C19.lookahead", cnt[0], K.short(cnt[0]), "count after the last change of `line`",
+                          "readline() counts the line before it strips the CRLF that belongs to the following delimiter: for a part with Content-Length the byte count ends at length + 2, read_chunk() then computes a negative remainder and StreamReader.read(-2) swallows the rest of the body - the following parts are returned as content of this one",
+                          path=grl.fmt_path(late))
+        elif cnt:
             chk.ok("C19.lookahead", cnt[0], "readline() counts the bytes it hands out (a Content-Length delimited part stays in step)")
         else:
             chk.violation("C19.lookahead", rl, "return line", "self._read_bytes += len(line)", "readline() does not count what it returns: in a part delimited by Content-Length a following read_chunk() reads past the end of the part")
